@@ -20,7 +20,8 @@ R.contract("CovMonitor.max_coverage_in_range", params={"self": REF("CovMonitor")
 R.contract("CovMonitor.add_read", params={"self": REF("CovMonitor"), "begin": INT, "end": INT},
            requires=[("range", "0 <= begin and begin <= end and end <= len(self.coverage)")],
            ensures=[("length", "len(self.coverage) == old(len(self.coverage))"),
-                    ("plus-one-exactly-on-span", "forall(k, implies(0 <= k and k < len(self.coverage), self.coverage[k] == old(self.coverage[k]) + ite(begin <= k and k < end, 1, 0)))")],
+                    ("plus-one-exactly-on-span", "forall(k, implies(0 <= k and k < len(self.coverage), self.coverage[k] == old(self.coverage[k]) + ite(begin <= k and k < end, 1, 0)), "
+                                                 "triggers=[self.coverage[k], old(self.coverage[k])])")],
            modifies=["CovMonitor.coverage"],
            loops={0: dict(index="j", inv=[("length", "len(self.coverage) == old(len(self.coverage))"),
                                            ("done-prefix", "forall(k, implies(0 <= k and k < len(self.coverage), self.coverage[k] == old(self.coverage[k]) + ite(begin <= k and k < j, 1, 0)))")])},
